@@ -44,7 +44,7 @@ GenCands(f) ==
       [] f.kind = "string"   -> {gs(<<" ", "A", "b", " ">>), gs(<<"a", "b", "c", "d">>), IntV(1), gs(<<>>), gs(<<" ", "E", "r", "r", "o", "r">>), gs(<<"R", "e", "d">>), gs(<<"r", "e", "d">>), gs(<<"A", "B">>)}
       [] f.kind = "bool"     -> {gs(<<"y", "e", "s">>), gs(<<"m">>), BoolV(TRUE)}
       [] f.kind = "ipv4addr" -> {gs(<<"1", "0", ".", "0", ".", "0", ".", "7">>), gs(<<"2", "5", "6", ".", "1", ".", "1", ".", "1">>)}
-      [] f.kind = "bytes"    -> {BytesV(<<0, 255>>), gs(<<"a", "b">>), IntV(5)}
+      [] f.kind = "bytes"    -> {BytesV(<<0, 255>>), gs(<<"a", "b">>), IntV(5), ObjV("bytearray")}
       [] f.kind = "list" /\ f.item.kind = "schema" ->
             {ListV(<<GD1(<<"p">>, IntV(1))>>), ListV(<<GD1(<<"p">>, IntV(0))>>), ListV(<<IntV(1)>>), ListV(<<>>)}
       [] f.kind = "list"     -> {ListV(<<IntV(2), gs(<<"3">>)>>), ListV(<<IntV(-1)>>), gs(<<"x">>), ListV(<<>>)}
@@ -209,6 +209,18 @@ CopyTree(n, m) ==
        \/ /\ ~r.ok /\ cfgs' = cfgs
           /\ ev' = [op |-> "CopyTree", n |-> m, src |-> n, out |-> Outcome(r), errpath |-> r.err.path, repl |-> {}]
 
+\* m.<p>.<k> = n.<p>.<k>: the typed list / dict value one configuration holds is assigned to the
+\* same field of the other one.  It is validated like any other value and the two configurations
+\* go on holding containers of their own.
+AssignFrom(n, m, pk) ==
+    /\ Built(n) /\ Built(m) /\ n # m
+    /\ LET src == CfgAt(cfgs[n], pk[1]).vals[pk[2]]
+           r == SetPath(S, cfgs[m], pk[1], pk[2], src) IN
+       /\ src.t \in {"list", "dict"}
+       /\ (src.t = "list" => \A i \in DOMAIN src.l : ~IsCfg(src.l[i]))
+       /\ cfgs' = [cfgs EXCEPT ![m] = r.cfg]
+       /\ ev' = [op |-> "AssignFrom", n |-> m, src |-> n, p |-> pk[1], k |-> pk[2], out |-> Outcome(r), errpath |-> r.err.path, repl |-> r.repl]
+
 \* A new session (C02): n.dumps(fmt) is loaded by a FRESH configuration of the same schema, which
 \* takes n's place.  The five formats are a typed channel here (their fidelity is C04's
 \* subject); the format is an event parameter so that the harness goes through each real one.
@@ -265,6 +277,7 @@ Next ==
     \/ \E n \in Names : Tick /\ CheckCollect(n)
     \/ \E n \in Names : Tick /\ Query(n)
     \/ \E n \in Names, m \in Names : Tick /\ CopyTree(n, m)
+    \/ \E n \in Names, m \in Names, pk \in (DOMAIN ListOpsNow) \cup (DOMAIN DictOpsNow) : Tick /\ AssignFrom(n, m, pk)
     \/ \E n \in Names, fmt \in Formats : Tick /\ RoundTrip(n, fmt)
 
 Bound == TRUE
